@@ -85,8 +85,10 @@ def eval_history(case):
     ops = case["ops"]
     for i, (form, url, val) in enumerate(ops):
         try:
-            stems = stems_of(url)
-            if form == "url":
+            stems = stems_of(url) if form != "empty-lru" else []
+            if form == "empty-lru":
+                t.set_lru([] if val % 2 else "p:|", val)   # the empty LRU (or one made of an empty path stem only) is a key like any other
+            elif form == "url":
                 t.set(url, val)
             elif form == "item":
                 t[url] = val
@@ -134,7 +136,7 @@ def eval_history(case):
                 for q in case["queries"]:
                     vq = fn(q, **kw)
                     for (form, url, val) in ops[:i + 1]:
-                        if fn(url, **kw) == vq:
+                        if form != "empty-lru" and fn(url, **kw) == vq:
                             # q and url are the same key; the latest value stored under that key wins
                             exp = model[_key(stems_of(url))]
                             got = t.match(q)
@@ -246,7 +248,7 @@ def _strategy(tier):
         cname = draw(st.sampled_from(CLASSES))
         kw = draw(st.sampled_from(KW[cname]))
         n = draw(st.integers(1, 25 if tier == "thorough" else 10))
-        ops = [[draw(st.sampled_from(["url", "lru", "list", "item"])), draw(url), draw(st.integers(1, 5))] for _ in range(n)]
+        ops = [[draw(st.sampled_from(["url", "lru", "list", "item", "url", "lru", "list", "item", "empty-lru"])), draw(url), draw(st.integers(1, 5))] for _ in range(n)]
         queries = draw(st.lists(url, min_size=4, max_size=12)) + [o[1] for o in ops[:5]] + [o[1].rstrip("/") + "/deeper" for o in ops[:3]]
         return {"kind": "lrutrie_history", "cls": cname, "suffix_aware": draw(st.booleans()), "kwargs": kw,
                 "ops": ops, "queries": queries, "every_step": True}
